@@ -156,7 +156,7 @@ def _step_free(params):
     fr = [Free(f"e{i}", kind="bool") for i in range(n)]
     fr += [Free("warm", kind="bool"), Free("a1", kind="int", lo=0, hi=3), Free("ign", kind="bool"), Free("ax", kind="bool")]
     if params["op"] in ("before", "after") or params["op"].endswith("2"):
-        fr.append(Free("a2", kind="int", lo=0, hi=3))
+        fr.append(Free("a2", kind="int", lo=0, hi=1))  # second name: "b" or the unknown "zz"
     return fr
 
 
@@ -180,7 +180,7 @@ def _step_run(params, values):
     if not warm:
         r.__cache__ = None  # coherent() warmed it; restore the cold pre-state
     v = dict(values)
-    v.setdefault("a2", 3)
+    v["a2"] = 1 + 2 * values["a2"] if "a2" in values else 3
     v["ay"] = False
     args = _build_args(op, v, "fnNEW")
     before = [row[:2] + [row[2], list(row[3])] for row in model]
